@@ -154,6 +154,7 @@ type WorkerOut struct {
 	Digest       uint64            `json:"digest"` // fold of every run's fingerprint, step count, trace hash and verdict
 	DetChecked   int               `json:"det_checked"`
 	DetMismatch  int               `json:"det_mismatch"`
+	DetWarm      int               `json:"det_warm"`
 }
 
 type ViolationRec struct {
@@ -256,8 +257,20 @@ func work(id string, p Prop, args []string) int {
 				o.Violations = append(o.Violations, rec)
 				break
 			}
-			if v2.Fingerprint != v.Fingerprint || v2.Violation != v.Violation || v2.Discard != v.Discard || v2.Trace != v.Trace || v2.Steps != v.Steps {
-				o.DetMismatch++
+			same := func(a, b *Verdict) bool {
+				return a.Fingerprint == b.Fingerprint && a.Violation == b.Violation && a.Discard == b.Discard && a.Trace == b.Trace && a.Steps == b.Steps
+			}
+			if !same(&v, &v2) {
+				// A third execution tells a warm-up effect of the library (state a first use
+				// leaves in the process - a correctly locked cache, an interning table; the
+				// second and third executions then agree) from behaviour that is not a function
+				// of the case at all.
+				v3 := p.Run(c)
+				if same(&v2, &v3) {
+					o.DetWarm++
+				} else {
+					o.DetMismatch++
+				}
 			}
 		}
 		if v.Known != "" {
